@@ -113,4 +113,161 @@ theorem field_nonneg {c : Civil} {L off : Int} {mk : CivilTime → LocalResult}
   have := h.second; have := h.minute; have := h.hour; have := h.ordinal0; have := h.week0
   cases u <;> simp [isCalendarUnit] at hu <;> simp only [fieldOf] <;> omega
 
+/-! ### the repaired algorithm -/
+
+theorem incFixed_pos {n f v : Int} {m : Bool} (h : incFixed n f m = some v) : 1 ≤ v := by
+  have hn : 1 ≤ max n 1 := by omega
+  have hlt := Int.tmod_lt_of_pos f (b := max n 1) (by omega)
+  cases m
+  · simp [incFixed] at h; omega
+  · simp only [incFixed, if_true] at h
+    split at h
+    · cases h; omega
+    · cases h
+
+theorem incFixed_eq {n f : Int} (m : Bool) (hn : 1 ≤ n) (hf : 0 ≤ f) (hnb : n ≤ I64_MAX) :
+    incFixed n f m = some (incVal f n m) := by
+  have hmax : max n 1 = n := by omega
+  have h1 := Int.emod_nonneg f (b := n) (by omega)
+  have h2 := Int.emod_lt_of_pos f (b := n) (by omega)
+  simp only [I64_MAX] at hnb
+  cases m
+  · simp [incFixed, incVal, hmax]
+  · have : inI64 (n - f % n) = true := by
+      unfold inI64; exact decide_eq_true (by simp only [I64_MIN, I64_MAX]; omega)
+    simp [incFixed, incVal, hmax, Int.tmod_eq_emod_of_nonneg hf, this]
+
+theorem spanFixed_no_panic {count unit : Int} (h : count * unit ≠ I64_MIN) :
+    ∃ r, spanFixed count unit = .ok r := by
+  unfold spanFixed
+  simp only []
+  repeat' split
+  all_goals first | exact ⟨_, rfl⟩ | contradiction
+
+theorem spanFixed_ok {count unit : Int} (h0 : 0 ≤ count * unit) (h1 : count * unit ≤ DUR_MAX) :
+    spanFixed count unit = .ok (some (count * unit)) := by
+  simp only [DUR_MAX] at h1
+  have hi : inI64 (count * unit) = true := by
+    unfold inI64; exact decide_eq_true (by simp only [I64_MIN, I64_MAX]; omega)
+  have hne : count * unit ≠ I64_MIN := by simp only [I64_MIN]; omega
+  have hr : ¬ (count * unit > DUR_MAX ∨ count * unit < -DUR_MAX) := by simp only [DUR_MAX]; omega
+  simp [spanFixed, hi, hne, hr]
+
+theorem midnightPlus_no_panic (e : Env) (days : Int) : ∃ r, midnightPlus e days = .ok r := by
+  have hne : days * 86400 ≠ I64_MIN := by simp only [I64_MIN]; omega
+  obtain ⟨r, hr⟩ := spanFixed_no_panic hne
+  unfold midnightPlus
+  rw [hr, bind_ok]
+  cases r
+  · exact ⟨_, rfl⟩
+  · simp only []; split <;> exact ⟨_, rfl⟩
+
+theorem unitStartPlus_no_panic (e : Env) (count unit elapsed : Int) (h : count * unit ≠ I64_MIN) :
+    ∃ r, unitStartPlus e count unit elapsed = .ok r := by
+  obtain ⟨r, hr⟩ := spanFixed_no_panic h
+  unfold unitStartPlus
+  rw [hr, bind_ok]
+  cases r
+  · exact ⟨_, rfl⟩
+  · simp only []; split <;> exact ⟨_, rfl⟩
+
+theorem checkedNextFixed_no_panic (c : Civil) (e : Env) (u : IUnit) (n : Int) (m : Bool) :
+    ∃ r, checkedNextFixed c e u n m = .ok r := by
+  cases u <;> simp only [checkedNextFixed]
+  case second =>
+    cases h : incFixed n c.second m with
+    | none => exact ⟨_, rfl⟩
+    | some inc =>
+      have := incFixed_pos h
+      exact unitStartPlus_no_panic e inc 1 0 (by simp only [I64_MIN]; omega)
+  case minute =>
+    cases h : incFixed n c.minute m with
+    | none => exact ⟨_, rfl⟩
+    | some inc => exact unitStartPlus_no_panic e inc 60 _ (by simp only [I64_MIN]; omega)
+  case hour =>
+    cases h : incFixed n c.hour m with
+    | none => exact ⟨_, rfl⟩
+    | some inc => exact unitStartPlus_no_panic e inc 3600 _ (by simp only [I64_MIN]; omega)
+  case day =>
+    cases h : incFixed n c.ordinal0 m with
+    | none => exact ⟨_, rfl⟩
+    | some inc => exact midnightPlus_no_panic e inc
+  case week =>
+    cases h : incFixed n c.week0 m with
+    | none => exact ⟨_, rfl⟩
+    | some inc =>
+      simp only []
+      split
+      · exact midnightPlus_no_panic e _
+      · exact ⟨_, rfl⟩
+  case month =>
+    cases h : incFixed n c.month0 m with
+    | none => exact ⟨_, rfl⟩
+    | some inc => simp only []; split <;> exact ⟨_, rfl⟩
+  case year =>
+    cases h : incFixed n c.year m with
+    | none => exact ⟨_, rfl⟩
+    | some inc => simp only []; split <;> exact ⟨_, rfl⟩
+
+/-- `t` is an instant chrono offers for the local time `l` -/
+def Occurrence (mkL : Int → LocalResult) (l t : Int) : Prop :=
+  mkL l = .single t ∨ ∃ a b, mkL l = .ambiguous a b ∧ (t = a ∨ t = b)
+
+theorem resolveAfter_occurrence {mkL : Int → LocalResult} {now l : Int} (fuel : Nat) (h : mkL l ≠ .none) :
+    ∃ t, resolveAfter mkL now (fuel + 1) l = some t ∧ Occurrence mkL l t := by
+  unfold resolveAfter
+  cases hm : mkL l with
+  | single t => exact ⟨t, rfl, Or.inl hm⟩
+  | ambiguous a b =>
+    refine ⟨if a > now then a else b, rfl, Or.inr ⟨a, b, hm, ?_⟩⟩
+    split <;> simp
+  | none => exact absurd hm h
+
+/-- the local time the day and week branches resolve is the specification's boundary -/
+theorem target_day_week (c : Civil) (L : Int) (u : IUnit) (hu : u = .day ∨ u = .week) (n : Int) (m : Bool) :
+    (L - L % 86400) + (if u = .week then incVal c.week0 n m * 7 - c.weekday else incVal c.ordinal0 n m) * 86400
+      = expectedLocal c L u n m := by
+  have hmod := incVal_mod (fieldOf c u) n
+  generalize hq : (fieldOf c u / n + 1) * n = q at hmod
+  rcases hu with rfl | rfl <;> simp only [fieldOf] at hmod hq <;>
+    simp [expectedLocal, startOfPeriod, startOfUnit, fieldOf, unitSecs, hq] <;>
+    cases m <;> simp [incVal] at hmod ⊢ <;> omega
+
+theorem scheduleFixed_ok (t maxDelay d : Int) (hd : 0 ≤ d) :
+    ∃ t', scheduleFixed (.ok t) maxDelay d = .ok t' ∧ t ≤ t' := by
+  unfold scheduleFixed
+  rw [bind_ok]
+  split
+  · split
+    · obtain ⟨r, hr⟩ := spanFixed_no_panic (count := d) (unit := 1) (by simp only [I64_MIN]; omega)
+      rw [hr, bind_ok]
+      cases r with
+      | none => exact ⟨t, rfl, Int.le_refl t⟩
+      | some v =>
+        have hv : v = d * 1 := by
+          unfold spanFixed at hr
+          simp only [] at hr
+          repeat' split at hr
+          all_goals first | (cases hr; done) | (injection hr with h; injection h with h; exact h.symm)
+        simp only []
+        split
+        · exact ⟨t + v, rfl, by omega⟩
+        · exact ⟨t, rfl, Int.le_refl t⟩
+    · exact ⟨t, rfl, Int.le_refl t⟩
+  · exact ⟨t, rfl, Int.le_refl t⟩
+
+theorem runFixed_eq_run (steps : List (Int × Out Int)) (h : ∀ p ∈ steps, ∃ t, p.2 = .ok t) (st : TState) :
+    runFixed st steps = run st steps := by
+  induction steps generalizing st with
+  | nil => rfl
+  | cons p rest ih =>
+    obtain ⟨a, r⟩ := p
+    obtain ⟨t, ht⟩ := h (a, r) (by simp)
+    simp only at ht
+    subst ht
+    have hs : stepFixed st a (.ok t) = step st a (.ok t) := by
+      cases st <;> simp only [stepFixed, step] <;> split <;> rfl
+    simp only [runFixed, run, hs]
+    rw [ih (fun p hp => h p (by simp [hp]))]
+
 end Log4rs.TimeTrigger
